@@ -476,4 +476,33 @@ structure FeatSpec {Φ : Type} (ops : FeatOps Φ) (κ τ ω : Type) where
   close_iff : ∀ φ ψ, wf φ → wf ψ →
     (ops.close φ ψ = true ↔ tag φ = tag ψ ∧ colMeta φ = colMeta ψ ∧ All2 (All2 cellClose) (grid φ) (grid ψ))
 
+/-- The invariant of a constructed `TensorFrame` with `n` rows, in terms of the specification of
+    its features: distinct dict keys, `feat_dict` and `col_names_dict` have the same keys, every
+    feature is well formed, has `n` rows and as many columns as (non-empty) names, the target has
+    `n` entries, and `num_rows` reports `n`. -/
+structure Frame.WF {Φ β κ τ ω : Type} {ops : FeatOps Φ} (spec : FeatSpec ops κ τ ω)
+    (f : Frame Φ β) (n : Nat) : Prop where
+  featKeys : (keys f.feats).Nodup
+  nameKeys : (keys f.names).Nodup
+  sameKeys : ∀ s, s ∈ keys f.feats ↔ s ∈ keys f.names
+  feat_ok : ∀ s φ, (s, φ) ∈ f.feats → spec.wf φ ∧ ops.len φ = n ∧
+    ∃ ns, assoc s f.names = some ns ∧ ns.length = (spec.colMeta φ).length ∧ ns ≠ []
+  y_ok : ∀ y, f.y = some y → y.length = n
+  nr_ok : f.numRows ops = n
+
+/-- the positions of the original rows selected by a chain of selections, by Python-list
+    semantics: each index expression is applied to the list produced by the previous one. -/
+def chainPositions (n : Nat) : List Index → Option (List Nat)
+  | [] => some (List.range n)
+  | ix :: rest =>
+    match ix.positions n with
+    | none => none
+    | some ps =>
+      match chainPositions ps.length rest with
+      | none => none
+      | some qs => some (Grid.pick ps qs)
+
+/-- all column names of a frame, group by group. -/
+def allNames (names : List (String × List String)) : List String := names.flatMap (·.2)
+
 end TFVerif.TF
